@@ -3,5 +3,7 @@ H("c10_context", "C10", "seq", ["harness/c10_context.cc"], sdk=[], cxxflags=["-f
   what="real Context / RuntimeContext / trace::Scope: (a) every history of SetValue / SetValues / static wrappers / copy / assign / drop on a growing family of contexts, "
        "all held contexts re-queried over all keys against their own model maps after every operation; (b) every history of Attach / Detach (any token, any order, "
        "already detached, foreign) / token destruction / Scope push and pop (any order) against a vector-of-identities model, GetCurrent and GetCurrentSpan compared "
-       "after every operation, deep enough to cross the stack reallocations; (c) sequential two-thread isolation",
+       "after every operation, deep enough to cross the first stack reallocations; (c) sequential two-thread isolation; (d) deep stacks by shaped enumeration: "
+       "attach N frames (N up to 65 quick / 128 thorough; distinct contexts, re-attached contexts, trace::Scope) and unwind newest-first, with one token out of "
+       "order, or pop to a depth / re-grow / unwind, model compared after every single attach and detach",
   design_ref="5/C10")
